@@ -6,9 +6,10 @@ import (
 	"strings"
 )
 
-// Bounded stand-in for the structural contract of helper.Bst (pointer tree): every history of Insert/Remove
-// operations up to a stated length over a 4-value domain (type extremes and duplicates) is run on the real code and
-// compared with a multiset after every step. Labelled bounded; never counted as proved.
+// Bounded stand-in for the structural contract of helper.Bst (pointer tree): every history of Insert/Remove/Min/Max
+// operations up to a stated length over a 4-value domain (type extremes and duplicates) is run on the real code; each
+// operation's result is compared with a multiset, and after the last operation of every history (all lengths up to the
+// bound) Contains of every value, Min and Max are compared. Labelled bounded; never counted as proved.
 
 const bstBoundedSrc = `package helper
 
@@ -28,14 +29,44 @@ type zzBstRes struct {
 
 func zzBstRun[T Number](name string, dom []T, maxLen int) zzBstRes {
 	res := zzBstRes{Type: name}
-	nops := 2 * len(dom)
+	nops := 2*len(dom) + 2 // Insert(v), Remove(v) for each v; Min(); Max()
 	hist := make([]int, maxLen)
-	var rec func(depth int) bool
+	extremes := func(count map[T]int) (mn, mx T) {
+		first := true
+		for x, c := range count {
+			if c == 0 {
+				continue
+			}
+			if first || x < mn {
+				mn = x
+			}
+			if first || x > mx {
+				mx = x
+			}
+			first = false
+		}
+		return
+	}
+	// replays hist[0:n] on a fresh tree: every operation's own result is compared with the multiset (queries are
+	// operations of the history, so histories with and without a query between two updates are both explored), and
+	// after the last one everything observable is compared
 	check := func(n int) string {
 		b := NewBst[T]()
 		count := map[T]int{}
 		size := 0
 		for i := 0; i < n; i++ {
+			res.Steps++
+			if hist[i] >= 2*len(dom) {
+				mn, mx := extremes(count)
+				if hist[i] == 2*len(dom) {
+					if got := b.Min(); got != mn {
+						return fmt.Sprintf("step %d Min() = %v, multiset minimum %v (size %d)", i, got, mn, size)
+					}
+				} else if got := b.Max(); got != mx {
+					return fmt.Sprintf("step %d Max() = %v, multiset maximum %v (size %d)", i, got, mx, size)
+				}
+				continue
+			}
 			op, v := hist[i]/len(dom), dom[hist[i]%len(dom)]
 			if op == 0 {
 				b.Insert(v)
@@ -52,51 +83,41 @@ func zzBstRun[T Number](name string, dom []T, maxLen int) zzBstRes {
 					size--
 				}
 			}
-			res.Steps++
-			for _, x := range dom {
-				if b.Contains(x) != (count[x] > 0) {
-					return fmt.Sprintf("after step %d Contains(%v) = %v, multiset count %d", i, x, b.Contains(x), count[x])
-				}
+		}
+		for _, x := range dom {
+			if b.Contains(x) != (count[x] > 0) {
+				return fmt.Sprintf("after step %d Contains(%v) = %v, multiset count %d", n-1, x, b.Contains(x), count[x])
 			}
-			if size > 0 {
-				first := true
-				var mn, mx T
-				for x, c := range count {
-					if c == 0 {
-						continue
-					}
-					if first || x < mn {
-						mn = x
-					}
-					if first || x > mx {
-						mx = x
-					}
-					first = false
-				}
-				if b.Min() != mn || b.Max() != mx {
-					return fmt.Sprintf("after step %d Min/Max = %v/%v, multiset %v/%v", i, b.Min(), b.Max(), mn, mx)
-				}
-			} else if b.Min() != 0 || b.Max() != 0 {
-				return fmt.Sprintf("after step %d empty tree Min/Max = %v/%v", i, b.Min(), b.Max())
-			}
+		}
+		mn, mx := extremes(count)
+		if b.Max() != mx || b.Min() != mn {
+			return fmt.Sprintf("after step %d Min/Max = %v/%v, multiset %v/%v (size %d)", n-1, b.Min(), b.Max(), mn, mx, size)
 		}
 		return ""
 	}
+	var rec func(depth int) bool
 	rec = func(depth int) bool {
-		if depth == maxLen {
+		if depth > 0 {
 			res.Histories++
-			if f := check(maxLen); f != "" {
+			if f := check(depth); f != "" {
 				ops := ""
-				for i := 0; i < maxLen; i++ {
-					o := "Insert"
-					if hist[i]/len(dom) == 1 {
-						o = "Remove"
+				for i := 0; i < depth; i++ {
+					switch {
+					case hist[i] == 2*len(dom):
+						ops += "Min() "
+					case hist[i] == 2*len(dom)+1:
+						ops += "Max() "
+					case hist[i]/len(dom) == 1:
+						ops += fmt.Sprintf("Remove(%v) ", dom[hist[i]%len(dom)])
+					default:
+						ops += fmt.Sprintf("Insert(%v) ", dom[hist[i]%len(dom)])
 					}
-					ops += fmt.Sprintf("%s(%v) ", o, dom[hist[i]%len(dom)])
 				}
 				res.Failure = ops + ": " + f
 				return false
 			}
+		}
+		if depth == maxLen {
 			return true
 		}
 		for o := 0; o < nops; o++ {
